@@ -20,6 +20,7 @@ import (
 	"strconv"
 	"strings"
 	"sync"
+	"syscall"
 	"testing"
 	"testing/synctest"
 	"time"
@@ -425,6 +426,65 @@ func (c *Case) HangCheck(prop, what string, limit time.Duration, fn func()) bool
 			os.WriteFile(fmt.Sprintf("%s/hang.%s.%d.%d.txt", dir, c.Check, c.Seed, c.Index), []byte(d2), 0o644)
 		}
 		c.Violation(prop, "hang "+what+": "+strings.Join(fp, " | "), "%s did not return within %v; library goroutines are parked and unchanged between two dumps:\n%s", what, limit, excerpt)
+		return false
+	}
+	// not a stable deadlock picture. A livelock? The same library goroutines keep running in the same
+	// library functions, dump after dump, and the process burns CPU all the while (a goroutine that is
+	// merely starved on a loaded machine does not): a call that spins and will never return.
+	spinning := func(dump string) map[string]string {
+		out := map[string]string{}
+		for _, blk := range strings.Split(dump, "\n\n") {
+			blk = strings.TrimSpace(blk)
+			m := goroutineHdr.FindStringSubmatch(blk)
+			if m == nil || !strings.Contains(blk, "github.com/filecoin-project/go-data-transfer/v2") {
+				continue
+			}
+			if st := m[2]; st == "running" || st == "runnable" {
+				if fr := TopLibFrame(blk); fr != "?" {
+					out[m[1]] = fr
+				}
+			}
+		}
+		return out
+	}
+	cpu := func() time.Duration {
+		var ru syscall.Rusage
+		syscall.Getrusage(syscall.RUSAGE_SELF, &ru)
+		return time.Duration(ru.Utime.Nano() + ru.Stime.Nano())
+	}
+	s0, c0, t0 := spinning(d2), cpu(), time.Now()
+	var last string
+	for i := 0; i < 3 && len(s0) > 0; i++ {
+		select {
+		case <-done:
+			return true
+		case <-time.After(2 * time.Second):
+		}
+		last = dumpAll()
+		si := spinning(last)
+		for id, fr := range s0 { // keep the goroutines that are still running in the same library function
+			if si[id] != fr {
+				delete(s0, id)
+			}
+		}
+	}
+	if len(s0) > 0 && cpu()-c0 > time.Since(t0)/2 {
+		var frames []string
+		seen := map[string]bool{}
+		for _, fr := range s0 {
+			if !seen[fr] {
+				seen[fr] = true
+				frames = append(frames, fr+"@running")
+			}
+		}
+		sort.Strings(frames)
+		excerpt := ""
+		for _, blk := range strings.Split(last, "\n\n") {
+			if strings.Contains(blk, "github.com/filecoin-project/go-data-transfer/v2") && len(excerpt) < 5000 {
+				excerpt += blk + "\n\n"
+			}
+		}
+		c.Violation(prop, "hang "+what+" (spinning): "+strings.Join(frames, " | "), "%s did not return within %v; the same library goroutines are still running in the same library functions 6 s and four dumps later while the process burns CPU:\n%s", what, limit, excerpt)
 		return false
 	}
 	c.Inconclusive("%s did not return within %v but the process is still busy (no stable deadlock picture)", what, limit)
